@@ -313,6 +313,12 @@ impl Run {
         for (k, v) in self.extra.lock().unwrap().iter() {
             cov.insert(k.clone(), v.clone());
         }
+        let discarded = crate::e4::DISCARDED.load(Ordering::Relaxed);
+        if discarded > 0 {
+            // schedules in which a participant blocked at a place without a scheduling point: not judged, not expanded
+            cov.insert("schedules_discarded_uninstrumented_blocking".into(), json!(discarded));
+            cov.insert("exhaustive".into(), json!(false));
+        }
         cov.insert("violation_classes".into(), J::Array(viol_json));
         cov.insert("known_findings_hit".into(), json!(known_hits));
         cov.insert("machinery_errors".into(), json!(*merr));
